@@ -37,6 +37,9 @@ func (l lenPos) Pos() int { return l.total - l.rest() }
 // (successive calls on one shared reader until it is exhausted).
 func RunParse(t *testing.T, c *Case, s Sched, keepLog bool) *Obs {
 	sim := MakeSim(s, keepLog)
+	if b := 48 * len(c.Src); b > sim.StepBudget {
+		sim.StepBudget = b // the budget is linear in the input (very long flat inputs)
+	}
 	o := &Obs{Sched: s, Extra: map[string]string{}}
 	o.Sched.Policy = sim.Policy.Name()
 	if s.UseTape {
